@@ -173,13 +173,20 @@ class ReopenEngine(Engine):
             init = gen.gen_program(rng, swarm)
         else:
             init = gen.gen_tree(rng, swarm)
+        if rng.random() < 0.12:
+            # file names that are not valid UTF-8 (legacy Latin-1 names on a UTF-8 system): Python
+            # presents them with lone surrogates ('caf\udce9.txt'); they are legal paths for rope
+            swarm["odd_names"] = True
+            init = [e for e in init if e["p"] not in ("caf\udce9.txt", "m\udcfcnze.py")] + [
+                {"p": "caf\udce9.txt", "text": "menu\n", "nl": "lf", "enc": "utf-8", "cls": None, "cookie": None},
+                {"p": "m\udcfcnze.py", "text": "def coin(v):\n    return v\n\n\nc = coin(1)\n", "nl": "lf", "enc": "utf-8", "cls": None, "cookie": None}]
         if swarm["validate_objectdb"] and rng.random() < 0.5:
             # project code calls into a library outside the project: analysis stores what it learns
             # about that library's functions under the library's absolute path
             swarm["sibling_lib"] = True
             swarm["oi_w"] = max(swarm["oi_w"], 2)
             init = [e for e in init if e["p"] != "uses_shelf.py"] + [
-                {"p": "uses_shelf.py", "text": "import shelf\n\n\nclass Apple:\n    pass\n\n\nr = shelf.put(Apple())\nk = shelf.Shelf().add(Apple())\n",
+                {"p": "uses_shelf.py", "text": "import shelf\n\n\nclass Apple:\n    pass\n\n\ndef keep(s):\n    return s\n\n\nr = shelf.put(Apple())\nk = shelf.Shelf().add(Apple())\nkept = keep(shelf.Shelf())\n",
                  "nl": "lf", "enc": "utf-8", "cls": None, "cookie": None}]
         base = gen.tree_model_of(init)
         classes = gen.file_classes(init)
@@ -245,6 +252,7 @@ class ReopenEngine(Engine):
 
     # ------------------------------------------------------------------
     def execute(self, trace):
+        trace = kernel.jsonify(trace)
         out = Outcome(PROP)
         out.trace = trace
         out.swarm = trace.get("swarm")
